@@ -233,6 +233,53 @@ def run_float(chk: Check, cases, results):
                               left=repr(A1)[:400], right=repr(A2)[:400]))
                 break
     chk.cov["float_worst_err_over_tol"] = round(worst, 4)
+    float_ratio(chk, cases, results)
+
+
+def float_ratio(chk: Check, cases, results):
+    """`ratio_var` / `ratio_cov` on floats, for denominators of ANY magnitude ("for all real means"), on plain
+    Aggregates and on `with_zero_div()` Aggregates (whose arithmetic goes through `utils.div`): the value must be the
+    exact value of the same float inputs up to rounding (scaled by the size of the terms that are added), and the
+    zero-division-safe wrappers must not change a division whose divisor is not zero."""
+    import tea_tasting.aggr as ta
+    for i, (c, r) in enumerate(zip(cases, results)):
+        nm = c["names"]
+        if len(nm) < 2:
+            continue
+        x, y = nm[0], nm[1]
+        count, mean, var, cov = r["a1"]
+        for scale in (1.0, 1e-7, 1e-9, 1e6):
+            def scaled(conv):
+                mu = {k: conv(float(v) * (scale if k == y else 1.0)) for k, v in mean.items()}
+                vr = {k: conv(float(v) * (scale * scale if k == y else 1.0)) for k, v in var.items()}
+                cv = {k: conv(float(v) * (scale if (k[0] == y) != (k[1] == y) else (scale * scale if k[0] == y else 1.0)))
+                      for k, v in cov.items()}
+                return ta.Aggregates(count_=int(count), mean_=mu, var_=vr, cov_=cv)
+            Af, Ae = scaled(float), scaled(lambda v: F(v))
+            if Ae.mean_[y] == 0 or Ae.mean_[x] == 0:
+                continue
+            for what, call in (("ratio_var(x, y)", lambda a: a.ratio_var(x, y)),
+                               ("ratio_cov(x, y, y, x)", lambda a: a.ratio_cov(x, y, y, x)),
+                               ("ratio_cov(x, None, x, y)", lambda a: a.ratio_cov(x, None, x, y))):
+                chk.case(("float-ratio", i, scale, what), nontrivial=False)
+                s0, exact = real_call(lambda: call(Ae))
+                s1, plain = real_call(lambda: call(Af))
+                s2, safe = real_call(lambda: call(Af.with_zero_div()))
+                inp = dict(case=i, what=what, x=x, y=y, scale_of_y=scale, aggregates=repr(Af)[:500])
+                if "ok" not in (s0,) or s1 != "ok" or s2 != "ok":
+                    chk.fail("ratio_var / ratio_cov raised on floats with non-zero means",
+                             dict(input=inp, exact=str(exact)[:100], plain=str(plain)[:100], zero_div_safe=str(safe)[:100]))
+                    continue
+                mx, my = abs(float(Ae.mean_[x])), abs(float(Ae.mean_[y]))
+                size = (abs(float(Ae.var_[x])) / my ** 2 + 2 * abs(float(Ae.cov_[tuple(sorted((x, y)))])) * mx / my ** 3
+                        + abs(float(Ae.var_[y])) * mx ** 2 / my ** 4) * max(1.0, my / mx * my / mx, mx / my)
+                tol = 1e-9 * size + 1e-300
+                for lab, got in (("plain", plain), ("with_zero_div", safe)):
+                    g = float(got)
+                    if not (abs(g - float(exact)) <= tol):
+                        chk.fail(f"{what} on {lab} float Aggregates is not the exact value of the same inputs up to rounding",
+                                 dict(input=inp, observed=g, exact=float(exact), tol=tol))
+                        break
 
 
 def main():
